@@ -276,7 +276,9 @@ func newRows(result *updog.Result, groupBy []string) *rows {
 		cols: append(groupBy, "count"),
 	}
 
-	if len(result.Groups) > 0 {
+	// with a group-by clause, there is one row per group (and none if no group matched);
+	// only without one, the single row with the total count is returned.
+	if len(groupBy) > 0 {
 		for _, rr := range result.Groups {
 			fields := []string{}
 			for _, f := range rr.Fields {
